@@ -347,6 +347,12 @@ func (s *Sim) opPublish(op *Op) {
 	if op.QoS > m.maxQoS() {
 		op.QoS = m.maxQoS() // clients keep within the advertised Maximum QoS
 	}
+	if op.HeldDup {
+		if len(sl.heldQ2) == 0 {
+			return
+		}
+		op.PID, op.QoS, op.Dup = sl.heldQ2[0], 2, true
+	}
 	pid := op.PID
 	if op.QoS > 0 && pid == 0 {
 		pid = sl.allocPID()
